@@ -98,6 +98,19 @@ f("C08-F24", "Gremlin values(k).fold() fails: the aggregate looks up the propert
   "crates/grafeo-engine/src/query/gremlin_translator.rs:721-735",
   {"query": "g.V().values('uid').fold()", "languages": ["gremlin"], "observed": "Internal error: Variable 'uid' not found in input", "cross_language": "gql answers MATCH (n) RETURN collect(n.uid)"})
 
+f("C08-F25", "ValueVector::set_null allocates the validity bitmap at the first null and never grows it: every later null in a typed column reads back as the column default (0, 0.0, \"\", false)",
+  "crates/grafeo-core/src/execution/vector.rs:119-128 (set_null: index >= validity.len() is ignored); push_* do not extend validity",
+  {"graph": "(:T{uid:18}), (:T{uid:20,k:2})", "query": "MATCH (n0) RETURN n0.k AS c0, min(n0.f) AS c1", "languages": ["gql", "cypher"],
+   "expected": "[[2, null], [null, null]]", "observed": "[[null, null], [2, 0]]",
+   "proposed_fix": "vector.rs: in every push_* / push_value extend `validity` with `true` when it is Some; or in set_null resize validity to self.len before writing"})
+f("C08-F26", "GQL: an unbounded variable-length pattern (*, *n..) gets max_hops = 1: `edge.max_hops.or(Some(1))` cannot tell 'no quantifier' from 'no upper bound'",
+  "crates/grafeo-engine/src/query/gql_translator.rs:770",
+  {"graph": "chain (12)-[:R]->(13)-[:R]->(14)", "query": "MATCH (n0)-[*]->(n1) RETURN n0.uid AS c0", "languages": ["gql"], "expected": "3 rows (12,12,13)", "observed": "2 rows (the 2-hop walk is missing); *2.. returns nothing"})
+f("C08-F27", "the planner's zone-map pre-check looks up the property name in the *node* zone map whatever the variable is: a predicate on an edge property whose key also exists on nodes is answered 'no match possible' and the whole result is empty",
+  "crates/grafeo-engine/src/query/planner.rs:915-920, 1046-1050 (check_zone_map_for_predicate -> store.node_property_might_match)",
+  {"graph": "(:P{uid:6})-[:R{uid:1001}]->(:T:P{uid:5})", "query": "MATCH (n0)-[e0]->(n1) WHERE e0.uid > 500 RETURN n0.uid AS c0", "languages": ["gql", "cypher"], "expected": "[[6]]", "observed": "[]",
+   "note": "random predicates on edges use keys that do not exist on nodes (w, t); this defect is pinned by directed cells"})
+
 extra = json.load(open(f"{ROOT}/scripts/c08_extra_signatures.json")) if os.path.exists(f"{ROOT}/scripts/c08_extra_signatures.json") else {}
 for e in F:
     e["match"]["signatures"] += extra.get(e["id"], [])
